@@ -6,7 +6,7 @@ use serde::{Deserialize, Serialize};
 use serde_json::{json, Value};
 
 use crate::{
-    drive::{reference, run_parser, Mode},
+    drive::{reference, run_parser_opt, Mode},
     framework::{Prop, RunReport, Tier},
     gen::{self, gen_payload, gen_stream, gen_trace, ShapeCfg, Stream, TraceOpts, STYLES},
     outcome::Outcome,
@@ -27,6 +27,9 @@ pub struct Case {
     /// buggify: a sticky I/O error sits exactly at the first payload byte; a correct parser never touches it
     pub boundary_fault: bool,
     pub payload_buf_sizes: Vec<u32>,
+    /// parse_parts modes: read the rest through reader.into_payload() instead of reader.into_inner()
+    #[serde(default)]
+    pub parts_into_payload: bool,
 }
 
 #[derive(Clone, Copy)]
@@ -102,6 +105,7 @@ impl Prop for C06 {
             style: STYLES[style].to_string(),
             boundary_fault,
             payload_buf_sizes,
+            parts_into_payload: rng.chance(1, 2),
         }
     }
 
@@ -139,7 +143,10 @@ impl Prop for C06 {
         src.set_record(record);
         src.set_track(true);
         let max_polls = case.spec.trace.len() as u64 * 3 + data.len() as u64 * 2 + 64;
-        let pr = run_parser(&core, &src, case.mode, max_polls, true, &case.payload_buf_sizes, data.len() + 16);
+        let pr = run_parser_opt(&core, &src, case.mode, max_polls, true, &case.payload_buf_sizes, data.len() + 16, case.parts_into_payload);
+        if case.parts_into_payload && matches!(case.mode, Mode::SyncParts | Mode::AsyncParts) {
+            rep.count("parts_rest_read_through_into_payload", 1);
+        }
 
         rep.count(&format!("mode_{}", case.mode.name()), 1);
         rep.count(&format!("style_{}", case.style), 1);
